@@ -1,6 +1,7 @@
 (* C05 - Protocol rules are enforced before the implementation is called.
    Property theorems only (each closed by [exact] of a lemma proved elsewhere, followed by Print Assumptions). *)
 From Coq Require Import NArith ZArith List Bool.
+From V9 Require Shape.ShapeLib Shape.PSeq.
 From V9 Require Import Lib.GoSem Lib.Bytes Gen.Consts Codec.Msg Srv.Seq Srv.SeqSpec Srv.SeqProofs.
 Import ListNotations.
 Local Open Scope N_scope.
@@ -59,3 +60,10 @@ Example C05_wraparound_count_refused :
   forwarded (snd (seq_step cfg c (Tread_ 1 0 4294967280) (mkScript (AOk (Rread_ [])) None))) = false /\
   forwarded (snd (seq_step cfg c (Tread_ 1 0 8168) (mkScript (AOk (Rread_ [])) None))) = true.
 Proof. vm_compute. split; reflexivity. Qed.
+
+
+(* ---- a modelling assumption about the shape of the CURRENT source (Gen/Shape.v), re-checked on every run ---- *)
+(* every refusal of walk / open / create precedes the change of the fid table or of the fid (a refused request leaves no state behind) *)
+Theorem C05_source_handlers_check_before_they_change : ShapeLib.handlers_check_before_they_change = true.
+Proof. exact PSeq.handlers_check_before_they_change_ok. Qed.
+Print Assumptions C05_source_handlers_check_before_they_change.
